@@ -456,6 +456,49 @@ def rule_basis(chk, prog):
   chk.at_least('C01.2c-memory-order', 6)
 
 
+def mask_conjuncts(prog, cname):
+  """[(kind, conjunct term, limit expression)] of `<cname>.mask`: kind ∈ triangle | zero-imag-row | m-limit | l-limit | other.
+
+  Limits are compared as normal forms in M = longitude_wavenumbers and L = total_wavenumbers (modal_limits is inlined),
+  so `i < self.modal_limits[0]` and `i < 2 * self.longitude_wavenumbers` classify alike."""
+  OP = {f'{SH}.FastSphericalHarmonics.modal_shape', f'{SH}.FastSphericalHarmonics.modal_padding', f'{SH}.FastSphericalHarmonics.modal_axes',
+        f'{SH}.RealSphericalHarmonics.modal_axes'}
+  ev2 = sym.Evaluator(prog, sym.Options(opaque=OP))
+  c = prog.cls(f'{SH}.{cname}')
+  v, _, _ = ev2.run(c.find_method('mask'))
+  A = alg.Algebra(ev2)
+  M = A.name(lambda t: t.k == 'attr' and t.a[1] == 'longitude_wavenumbers', 'M', integer=True, positive=True)
+  L = A.name(lambda t: t.k == 'attr' and t.a[1] == 'total_wavenumbers', 'L', integer=True, positive=True)
+  ax = lambda t, i: util.strip(t).k == 'sub' and util.strip(t).a[1] == sym.const(i) and util.strip(t).a[0].k == 'attr' and util.strip(t).a[0].a[1] == 'modal_axes'
+  def idx(t, i):
+    t = util.strip(t)
+    return t.k == 'sub' and t.a[1] == sym.const(i) and sym.contains(t.a[0], lambda z_: match.is_ext_call(z_, 'arange')) and sym.contains(t.a[0], lambda z_: z_.k == 'attr' and z_.a[1] == 'modal_shape')
+  out = []
+  for cj in conjuncts(v):
+    kind, lim = 'other', None
+    if cj.k == 'cmp' and len(cj.a[0]) == 1:
+      op = cj.a[0][0]
+      l, r = cj.a[1]
+      if op in ('>', '>='):
+        l, r, op = r, l, {'>': '<', '>=': '<='}[op]
+      is_abs = lambda t: t.k == 'call' and (t.a[0] == Term('ext', 'abs') or alg.ext_short(t.a[0]) in ('abs', 'absolute')) and len(t.a[1]) == 1
+      if op == '<=' and is_abs(l) and ax(l.a[1][0], 0) and ax(r, 1):
+        kind = 'triangle'
+      elif op == '!=' and ((idx(l, 0) and r == sym.const(1)) or (idx(r, 0) and l == sym.const(1))):
+        kind = 'zero-imag-row'
+      elif op in ('<', '<=') and (idx(l, 0) or idx(l, 1)) and not sym.contains(r, lambda z_: match.is_ext_call(z_, 'arange')):
+        try:
+          e = sp.simplify(A.conv(r) + (1 if op == '<=' else 0))
+        except Exception:
+          e = None
+        if e is not None and idx(l, 0):
+          kind, lim = ('m-limit' if alg.equal(e, 2 * M) else 'other'), e
+        elif e is not None:
+          kind, lim = ('l-limit' if alg.equal(e, L) else 'other'), e
+    out.append((kind, cj, lim))
+  return out
+
+
 # ---------------------------------------------------------- integrate/mask
 def conjuncts(t):
   if t.k == 'bin' and t.a[0] == '&':
@@ -506,34 +549,12 @@ def rule_integrate_mask(chk, prog):
   chk.at_least(rule, 6)
   # masks
   rule = 'C01.5-mask'
-  OP = {f'{SH}.FastSphericalHarmonics.modal_shape', f'{SH}.FastSphericalHarmonics.modal_padding', f'{SH}.FastSphericalHarmonics.modal_axes',
-        f'{SH}.RealSphericalHarmonics.modal_axes', f'{SH}.FastSphericalHarmonics.modal_limits'}
-  ev2 = sym.Evaluator(prog, sym.Options(opaque=OP))
-  def classify(cj):
-    if cj.k != 'cmp' or len(cj.a[0]) != 1:
-      return 'other'
-    op = cj.a[0][0]
-    l, r = cj.a[1]
-    ax = lambda t, i: util.strip(t).k == 'sub' and util.strip(t).a[1] == sym.const(i) and util.strip(t).a[0].k == 'attr' and util.strip(t).a[0].a[1] == 'modal_axes'
-    if op == '<=' and l.k == 'call' and l.a[0] == Term('ext', 'abs') and ax(l.a[1][0], 0) and ax(r, 1):
-      return 'triangle'
-    def idx(t, i):
-      t = util.strip(t)
-      return t.k == 'sub' and t.a[1] == sym.const(i) and sym.contains(t.a[0], lambda z_: match.is_ext_call(z_, 'arange')) and sym.contains(t.a[0], lambda z_: z_.k == 'attr' and z_.a[1] == 'modal_shape')
-    lim = lambda t, i: util.strip(t).k == 'sub' and util.strip(t).a[1] == sym.const(i) and util.strip(t).a[0].k == 'attr' and util.strip(t).a[0].a[1] == 'modal_limits'
-    if op == '!=' and idx(l, 0) and r == sym.const(1):
-      return 'zero-imag-row'
-    if op == '<' and idx(l, 0) and lim(r, 0):
-      return 'm-limit'
-    if op == '<' and idx(l, 1) and lim(r, 1):
-      return 'l-limit'
-    return 'other'
   for cname, want in (('RealSphericalHarmonics', ['triangle']), ('FastSphericalHarmonics', ['l-limit', 'm-limit', 'triangle', 'zero-imag-row'])):
     c = prog.cls(f'{SH}.{cname}')
     f = c.find_method('mask')
-    v, _, _ = ev2.run(f)
-    got = sorted(classify(cj) for cj in conjuncts(v))
-    chk.check(got == want, rule, f'{SH}.{cname}.mask = ' + ' ∧ '.join(want), str(got), (f.file, f.lineno), str(want), str(got))
+    cls_ = mask_conjuncts(prog, cname)
+    got = sorted(k_ for k_, _, _ in cls_)
+    chk.check(got == want, rule, f'{SH}.{cname}.mask = ' + ' ∧ '.join(want), str([(k_, str(e_)) for k_, _, e_ in cls_]), (f.file, f.lineno), str(want), str(got))
   # modal_limits / modal axes layout
   ev3 = sym.Evaluator(prog, sym.Options(opaque={f'{SH}.FastSphericalHarmonics.modal_padding'}))
   c = prog.cls(f'{SH}.FastSphericalHarmonics')
@@ -574,7 +595,49 @@ def rule_integrate_mask(chk, prog):
   chk.at_least(rule, 5)
 
 
+NUMERIC_MODULES = ('spherical_harmonic', 'associated_legendre', 'fourier', 'primitive_equations', 'sigma_coordinates', 'filtering', 'time_integration', 'shallow_water',
+                   'jax_numpy_utils', 'coordinate_systems', 'vertical_interpolation', 'horizontal_interpolation', 'held_suarez', 'radiation', 'scales', 'layer_coordinates',
+                   'primitive_equations_states', 'shallow_water_states', 'pytree_utils')
+
+
+def rule_shared_state(chk, prog, rule='C01.7-cached-arrays-never-updated-in-place'):
+  """Cached basis / weight / eigenvalue arrays and dataclass fields are shared by all later calls: nothing may update them in place."""
+  import ast
+  import os
+  from sa import alias, model
+  n = 0
+  # attribute names that hold shared numpy data: (cached) properties and fields of the non-state dataclasses
+  state_attrs = set()
+  for c in prog.classes.values():
+    for mname, fi in c.methods.items():
+      if fi.is_property():
+        state_attrs.add(mname)
+    if c.is_dataclass() and not c.is_struct():
+      state_attrs.update(f_[0] for f_ in c.fields)
+  for short in NUMERIC_MODULES:
+    name = f'dinosaur.{short}'
+    if name not in prog.modules:
+      continue
+    m = prog.modules[name]
+    tree = ast.parse(open(m.path, encoding='utf-8').read())
+    consts = {t.id for st in tree.body if isinstance(st, ast.Assign) for t in st.targets if isinstance(t, ast.Name)}
+    hits = alias.inplace_updates(tree, consts, state_attrs)
+    for fn, line, text, shared in hits:
+      chk.violation(rule, f'{short}.{fn}: {text}', f'in-place update of an object that may alias shared state ({shared}): cached_property values, dataclass fields and module constants '
+                    'are reused by every later call (e.g. quadrature weights scaled twice on the second call)', (m.relpath, line), 'update a copy (w = w * c)', text)
+    if not hits:
+      chk.ok(rule, f'{short}: no augmented assignment, subscript store or mutating call targets an alias of object state', '', (m.relpath, 1))
+    n += 1
+  fx = os.path.join(os.path.dirname(os.path.dirname(os.path.abspath(__file__))), 'fixtures', 'alias_fixture', 'dinosaur', 'fixture.py')
+  found = alias.inplace_updates(ast.parse(open(fx).read()), ())
+  if sorted(f for f, _, _, _ in found) != ['integrate', 'top']:
+    raise AnalysisError(f'positive fixture for {rule} no longer matches ({found}): the scan is blind or over-eager')
+  chk.ok(rule, 'positive fixture fixtures/alias_fixture: the two in-place updates of a cached array are reported, the update of a fresh copy is not', f'{len(found)} report(s)')
+  chk.at_least(rule, 10)
+
+
 def run(chk, prog, tier):
+  rule_shared_state(chk, prog)
   rule_legendre(chk, prog)
   rule_quadrature(chk, prog)
   rule_transforms(chk, prog)
